@@ -65,7 +65,11 @@ def make_gc(C, rng):
                 return C.e_c(0)
             if r < 0.85 or not idxs:
                 return ['v', 'a']
-            return ['+', C.e_c(1), ['v', self.rng.choice(idxs)]]
+            # 1 + i*i, not 1 + i: a loop index can be -2, and an atom of NEGATIVE duration is outside the assumptions
+            # (ConstantPT: no program, Table / PointPT: ValueError, FunctionPT: plays; the model only knows "does not
+            # play") - found by the thorough tier in round 5 as a model / implementation disagreement
+            i = self.rng.choice(idxs)
+            return ['+', C.e_c(1), ['*', ['v', i], ['v', i]]]
 
         def mapping(self, body, idxs, keep=()):
             names = sorted(x for x in C.meas_names(body) if x is not None)
